@@ -155,6 +155,37 @@ Theorem C09_scion_model_meets_oracle : forall cp lp src h payload e,
 Proof. exact model_meets_oracle_scion. Qed.
 Print Assumptions C09_scion_model_meets_oracle.
 
+(* ---- the same for whole histories: every exchange of every history passes the oracle,
+        whatever the listener handled before it (the oracle of the "ip" case kind is
+        C09_hist_ok over the probe and sentinel exchanges of all steps) ---- *)
+
+Theorem C09_history_meets_oracle : forall h buf, Forall datagram_ok h ->
+  exists outs, ip_run buf h = Some outs /\ length outs = length h /\
+    C09_hist_ok (observe_run h outs) = true.
+Proof. exact model_meets_oracle_history. Qed.
+Print Assumptions C09_history_meets_oracle.
+
+(* bursts: datagrams of one socket back to back; the replies in the order written *)
+Theorem C09_burst_meets_oracle : forall src h buf, Forall datagram_ok h ->
+  Forall (fun d => d_src d = src) h ->
+  exists outs, ip_run buf h = Some outs /\
+    C09_burst_ok src (map (fun d => (d_payload d, e_nts_ok (d_env d))) h)
+                     (map (fun w => (w_dst w, w_payload w)) (concat outs)) = true.
+Proof. exact model_meets_oracle_burst. Qed.
+Print Assumptions C09_burst_meets_oracle.
+
+(* a plain 48-byte well-formed request is answered exactly once, to its sender, wherever it
+   stands in a history; nothing at all is assumed about the datagrams before and after it
+   (valid NTS requests, garbage, oversize datagrams, any environment) *)
+Theorem C09_plain_request_answered_in_any_history : forall pre d post buf,
+  datagram_ok d -> valid_client_request (d_payload d) false ->
+  exists outs_pre out outs_post,
+    ip_run buf (pre ++ d :: post) =
+      Some (outs_pre ++ [ {| w_dst := d_src d; w_payload := out |} ] :: outs_post) /\
+    length outs_pre = length pre /\ length outs_post = length post /\ is_server_reply out.
+Proof. exact plain_request_answered_in_any_history. Qed.
+Print Assumptions C09_plain_request_answered_in_any_history.
+
 (* ---- the hypotheses are satisfiable, and both outcomes occur ---- *)
 
 Definition ex_env : env :=
@@ -185,3 +216,42 @@ Proof.
   unfold bytes_ok, ex_request. constructor; [lia|].
   apply Forall_forall. intros x Hin. apply repeat_spec in Hin. subst x. lia.
 Qed.
+
+(* a valid NTS request followed by a plain request from another socket: both are answered,
+   each once, to its own sender; an observation in which the second goes unanswered is
+   rejected by the oracle *)
+Definition ex_nts_env : env :=
+  {| e_nts_ok := true; e_nts_ext := repeat 7 100; e_nts_cookie_added := true;
+     e_rx := {| t64_sec := 3900000000; t64_frac := 5 |}; e_tx := {| t64_sec := 3900000000; t64_frac := 9 |};
+     e_store_hit := None; e_spao_fail := false; e_path_rev := Some (0, []) |}.
+Definition ex_nts_request : list Z := ex_request ++ repeat 1 180.
+Definition ex_nts_then_plain : list ip_datagram :=
+  [ {| d_src := 7; d_payload := ex_nts_request; d_env := ex_nts_env |};
+    {| d_src := 8; d_payload := ex_request; d_env := ex_env |} ].
+
+Example ex_nts_then_plain_ok : Forall datagram_ok ex_nts_then_plain.
+Proof.
+  assert (bytes_ok ex_request) as Hr.
+  { unfold bytes_ok, ex_request. constructor; [lia|].
+    apply Forall_forall. intros x Hin. apply repeat_spec in Hin. subst x. lia. }
+  constructor; [|constructor; [|constructor]].
+  - split.
+    + unfold bytes_ok, ex_nts_request. apply Forall_app. split; [exact Hr|].
+      apply Forall_forall. intros x Hin. apply repeat_spec in Hin. subst x. lia.
+    + unfold env_ok. simpl. split; [intros _; split; [vm_compute; discriminate|reflexivity] | vm_compute; discriminate].
+  - split; [exact Hr | exact ex_env_ok].
+Qed.
+
+Example ex_nts_then_plain_both_answered :
+  exists o1 o2, ip_run [] ex_nts_then_plain =
+    Some [ [ {| w_dst := 7; w_payload := o1 |} ]; [ {| w_dst := 8; w_payload := o2 |} ] ] /\
+    zlen o1 = 148 /\ zlen o2 = 48.
+Proof. eexists _, _. split; [vm_compute; reflexivity|]. split; vm_compute; reflexivity. Qed.
+
+Example ex_unanswered_plain_rejected : forall r1,
+  C09_hist_ok [ {| o_src := 7; o_payload := ex_nts_request; o_nts := true; o_replies := [(7, r1)] |};
+                {| o_src := 8; o_payload := ex_request; o_nts := false; o_replies := [] |} ] = false.
+Proof. intros r1. unfold C09_hist_ok. cbn [forallb]. 
+  replace (C09_obs_ok {| o_src := 8; o_payload := ex_request; o_nts := false; o_replies := [] |}) with false
+    by (vm_compute; reflexivity).
+  rewrite andb_false_r. reflexivity. Qed.
